@@ -189,3 +189,32 @@ Proof.
     destruct (axis r) as [kx ky kz]. unfold mtrans. cbn [vx vy vz m00 m01 m02 m10 m11 m12 m20 m21 m22]. f_equal; ring. }
   split; [exact from_quat_scale_invariant|]. split; [exact from_quat_valid | exact quat_normalize_unit_id].
 Qed.
+
+(* ---------------------------------------------------------------- row-wise independence of the batched rotation *)
+(* the translated trees (and solver_rotate_translate) describe ONE row: every row of the batched arrays is rotated by
+   its OWN rotation vector.  A batch evaluation that computes axis/sin/cos once per block of rows and reuses them
+   (row 1 rotated with the rotation vector of row 0) is a different function: *)
+Definition rt_rows2 (p0 r0 t0 p1 r1 t1 : vec) : vec * vec :=
+  (solver_rotate_translate p0 r0 t0, solver_rotate_translate p1 r1 t1).
+Definition rt_block_shared2 (p0 r0 t0 p1 r1 t1 : vec) : vec * vec :=
+  (solver_rotate_translate p0 r0 t0, solver_rotate_translate p1 r0 t1).      (* r1 ignored *)
+
+Lemma vnorm_PI_x : vnorm (V3 PI 0 0) = PI.
+Proof.
+  unfold vnorm, norm3. cbn [vx vy vz]. replace (PI ^ 2 + 0 ^ 2 + 0 ^ 2) with (Rsqr PI) by (unfold Rsqr; ring).
+  apply sqrt_Rsqr. pose proof PI_RGT_0. lra.
+Qed.
+
+Lemma block_shared_rotation_refuted :
+  (forall p0 r t0 p1 t1, rt_block_shared2 p0 r t0 p1 r t1 = rt_rows2 p0 r t0 p1 r t1) /\
+  (exists p0 r0 t0 p1 r1 t1, rt_block_shared2 p0 r0 t0 p1 r1 t1 <> rt_rows2 p0 r0 t0 p1 r1 t1).
+Proof.
+  split; [reflexivity|].
+  exists (V3 0 1 0), vzero, vzero, (V3 0 1 0), (V3 PI 0 0), vzero.
+  unfold rt_block_shared2, rt_rows2. intros E0. pose proof (f_equal snd E0) as E. cbn [snd] in E. clear E0.
+  rewrite solver_rt_zero in E. rewrite (solver_rt_half_turn _ _ _ vnorm_PI_x) in E.
+  assert (Hr : V3 PI 0 0 <> vzero) by (intros H; injection H as H; pose proof PI_RGT_0; lra).
+  rewrite (axis_nonzero _ Hr), vnorm_PI_x in E. unfold vscale, vdot, vadd, vsub, vzero in E. cbn [vx vy vz] in E.
+  pose proof (f_equal vy E) as Ey. cbn [vy] in Ey. pose proof PI_RGT_0.
+  assert (Hp : / PI * PI = 1) by (field; lra). rewrite Hp in Ey. lra.
+Qed.
